@@ -99,6 +99,16 @@ func (c *Check) mapRules() {
 		default:
 			ex, ok := mapExceptions[key]
 			if !ok {
+				// the same map kept in a struct field instead of a local (or the reverse): the
+				// entry written for the map's type still describes it
+				if tv, okT := s.pkg.TypesInfo.Types[s.rng.X]; okT && tv.Type != nil {
+					ex, ok = mapExceptions["range:"+s.fn+":range "+typeShort(tv.Type)]
+					if !ok {
+						ex, ok = mapExceptions[s.fn+":range "+typeShort(tv.Type)]
+					}
+				}
+			}
+			if !ok {
 				ex, ok = inheritedMapException(p, s)
 			}
 			if ok {
